@@ -251,7 +251,14 @@ pub fn yield_now(site: u8) -> bool {
     match ME.with(|c| c.get()) {
         // Safety: the Baton outlives every client thread (threads are scoped inside its lifetime
         // and ME is cleared in `leave`).
-        Some((b, me)) => unsafe { (*b).yield_here(me, site) },
+        Some((b, me)) => {
+            let switched = unsafe { (*b).yield_here(me, site) };
+            if switched {
+                // we have the baton back: callbacks on library worker threads belong to us again
+                crate::stub::republish();
+            }
+            switched
+        }
         #[cfg(feature = "engine_c")]
         None => {
             // engine C: the harness's yield points (stub callbacks, element operations of `Yf`) are
